@@ -1,5 +1,6 @@
 import FxVerif.Model.C18
 import FxVerif.Proofs.C18P
+import FxVerif.Proofs.C18T
 /-!
 # C18 — a tolerated failed sub-step leaves none of its own partial effects
 
@@ -504,6 +505,146 @@ theorem transfer_stack_uses_middleware : transferStackUsesMiddleware = true := b
 
 end Prog
 
+
+/-! ## round 3: the whole executeClaim transaction, the inactive walk of gov, regenerated designated outcomes, the inventory -/
+
+section Round3
+open FxVerif.Model.C18P FxVerif.Proofs.C18P FxVerif.Proofs.C18T FxVerif.Model.C18Inv
+
+/-- **the executeClaim TRANSACTION, every path** (`ExecuteClaimMethod.Run` with the keeper's `ExecuteClaim` →
+`BridgeCallHandler` → `BridgeCallEvm` / `BridgeCallFailedRefund` inlined into the statedb native action; the handler's
+cache is a branch OF the native action's branch).  For a pending inbound bridge call whose sender is not a module
+account: a HARD failure — a credit fails, or the contract call fails AND one of its refund calls (`SendCoins`,
+`AddOutgoingBridgeCall`) fails, or the event cannot be built — leaves NOTHING on the statedb context (the claim stays
+pending) and `Run` returns the error; otherwise the context carries everything (the call succeeded) or exactly the
+designated outcome of the tolerated failure.  No hypothesis on the refund calls (`bridge_call_in_outcome_total` needs two). -/
+theorem execute_claim_tx_outcome_total (env : Env) (hp : NoPanic env) (hr : TxReached env) :
+    TxOutcome env (run env executeClaimTxProg) :=
+  tx_total env hp hr
+
+/-- the refund of a failed contract call fails itself (first, middle or last conversion, VM error of any kind × `SendCoins`
+or `AddOutgoingBridgeCall` failing): nothing is written at all -/
+theorem execute_claim_tx_refund_failure_leaves_nothing (env : Env) (hp : NoPanic env) (hr : TxReached env)
+    (hcf : bciCachedFails env) (hrf : txRefundFails env) :
+    (run env executeClaimTxProg).1 = .ret false ∧ (run env executeClaimTxProg).2.outer = [] := by
+  rcases tx_total env hp hr with ⟨_, h⟩ | ⟨hn, _⟩
+  · exact h
+  · exact absurd (Or.inr (Or.inl ⟨hcf, hrf⟩)) hn
+
+/-- the tolerated failure inside the transaction: the contract call fails, its refund succeeds: exactly the designated
+outcome is journaled -/
+theorem execute_claim_tx_tolerated_failure (env : Env) (hp : NoPanic env) (hr : TxReached env)
+    (hcred : BciAll1 env (env.iters 1 0)) (hcf : bciCachedFails env) (hnr : ¬ txRefundFails env)
+    (hev : env.ok "m.NewExecuteClaimEvent" 0 = true) :
+    (run env executeClaimTxProg).1 = .ret (env.ok "m.PackOutput" 0) ∧ (run env executeClaimTxProg).2.outer = bciDesignated env := by
+  rcases tx_total env hp hr with ⟨hh, _⟩ | ⟨_, h1, h2⟩
+  · rcases hh with h | ⟨_, h⟩ | h
+    · exact absurd hcred h
+    · exact absurd h hnr
+    · simp [hev] at h
+  · refine ⟨h1, ?_⟩
+    rcases h2 with ⟨_, ho⟩ | ⟨hn, _⟩
+    · exact ho
+    · exact absurd hcf hn
+
+/-- the same for ANY state type and ANY writes of every leaf -/
+theorem execute_claim_tx_refund_failure_denote {S : Type} (eff : Eff S) (cond : String → Nat → Bool) (iters : Nat → Nat → Nat)
+    (s : S) (hp : ∀ name i, (eff name i).panics = false) (hr : TxReached (eff.env cond iters))
+    (hcf : bciCachedFails (eff.env cond iters)) (hrf : txRefundFails (eff.env cond iters)) :
+    denote eff (run (eff.env cond iters) executeClaimTxProg).2.outer s = s := by
+  rw [(execute_claim_tx_refund_failure_leaves_nothing _ (fun name i => hp name i) hr hcf hrf).2]
+  rfl
+
+/-- **a block of inactive proposals** (first walk of gov `EndBlocker`): the walk ends normally and the outer context
+carries, proposal after proposal: deleted, deposits refunded or burnt, and the `AfterProposalFailedMinDeposit` hook's
+writes only when the hook SUCCEEDED (any number of proposals, the hook failing for any of them) -/
+theorem inactive_block_outcome_total (env : Env) (hok : InactiveOuterOk env) :
+    (run env govInactiveProg).1 = .norm ∧ (run env govInactiveProg).2.outer = inactiveBlock env (env.iters 1 0) :=
+  inactive_block env hok
+
+/-- no write of a FAILED hook survives the block -/
+theorem inactive_failed_hook_contributes_nothing (env : Env) (hok : InactiveOuterOk env) (t : Tok)
+    (ht : t ∈ (run env govInactiveProg).2.outer) (hn : t.name = "keeper.Hooks().AfterProposalFailedMinDeposit") :
+    t.iter < env.iters 1 0 ∧ env.ok "keeper.Hooks().AfterProposalFailedMinDeposit" t.iter = true := by
+  rw [(inactive_block env hok).2] at ht
+  obtain ⟨p, hp, hc⟩ := mem_inactiveBlock env t _ ht
+  unfold inactiveContribution at hc
+  simp only [List.mem_append, List.mem_cons, List.not_mem_nil, or_false] at hc
+  rcases hc with (hc | hc) | hc
+  · subst hc; simp at hn
+  · split at hc <;> simp at hc <;> subst hc <;> simp at hn
+  · split at hc
+    · rename_i hok'
+      simp at hc
+      subst hc
+      exact ⟨hp, hok'⟩
+    · simp at hc
+
+/-- **the designated outcomes are REGENERATED**: `strip k p` is the program `p` in which the leaf calls on store branch
+`k` write nothing.  When the handler fails, `TryAttestation` ends in exactly the state the stripped program ends in. -/
+theorem attestation_designated_is_stripped_run (env : Env) (it : Nat) (hp : NoPanic env)
+    (hfail : env.ok "k.AttestationHandler" it = false) :
+    (run env attestationProg it).2.outer = (run env (strip 1 attestationProg) it).2.outer := by
+  rw [(attestation_failure_outcome_prog env it hp hfail).2, (att_strip env it hp).2]
+
+theorem bridge_call_in_designated_is_stripped_run (env : Env) (hp : NoPanic env)
+    (hfound : env.cond "ExecuteClaim: found" 0 = true)
+    (ht1 : env.cond "ExecuteClaim: externalClaim.(type) is *types.MsgSendToFxClaim" 0 = false)
+    (ht2 : env.cond "ExecuteClaim: externalClaim.(type) is *types.MsgBridgeCallClaim" 0 = true)
+    (hmod : env.ok "k.ak.GetAccount" 0 = true ∨ env.cond "Keeper.BridgeCallHandler: ok" 0 = false)
+    (hs : env.ok "k.bankKeeper.SendCoins" 0 = true) (ha : env.ok "k.AddOutgoingBridgeCall" 0 = true)
+    (hcred : BciAll1 env (env.iters 1 0)) (hcf : bciCachedFails env) :
+    (run env executeClaimProg).2.outer = (run env (strip 1 executeClaimProg)).2.outer := by
+  rw [(bci_strip env hp hfound ht1 ht2 hmod hs ha hcred hcf).2]
+  rcases bci_total env hp hfound ht1 ht2 hmod hs ha with ⟨hno, _⟩ | ⟨_, _, h2⟩
+  · exact absurd hcred hno
+  · rcases h2 with ⟨hn, _⟩ | ⟨_, ho⟩
+    · exact absurd hcf hn
+    · exact ho
+
+theorem ibc_recv_designated_is_stripped_run (env : Env) (hp : NoPanic env) (hr : ibcReached env)
+    (hsync : env.cond "RecvPacket: ack != nil" 0 = true) (hsync' : env.cond "RecvPacket: ack == nil" 0 = false)
+    (hw : env.ok "k.ChannelKeeper.WriteAcknowledgement" 0 = true) (hf : ibcAppFails env ∨ ibcHookFails env) :
+    (run env recvPacketProg).2.outer = (run env (strip 2 recvPacketProg)).2.outer := by
+  rw [ibc_strip env hp hr hsync hsync' hw hf]
+  obtain ⟨_, h2⟩ := ibc_total env hp hr hsync hsync' hw
+  rcases h2 with ⟨_, ho⟩ | ⟨hn, _⟩
+  · exact ho
+  · exact absurd hf hn
+
+/-- what `strip` removes: exactly the calls the code runs on the branch of each boundary -/
+theorem cached_calls_of_each_boundary :
+    callsOn 1 attestationProg = ["k.AttestationHandler"] ∧
+    callsOn 1 executeClaimProg = ["k.BaseCoinToEvm", "k.evmKeeper.CallEVM"] ∧
+    callsOn 2 executeClaimTxProg = ["k.BaseCoinToEvm", "k.evmKeeper.CallEVM"] ∧
+    callsOn 1 govInactiveProg = ["keeper.Hooks().AfterProposalFailedMinDeposit"] ∧
+    callsOn 2 govProg = ["handler"] ∧
+    callsOn 3 govProg = ["keeper.Hooks().AfterProposalVotingPeriodEnded"] ∧
+    callsOn 1 executeClaimPrecompileProg = ["crosschainKeeper.ExecuteClaim"] ∧
+    callsOn 2 recvPacketProg = ["im.IBCModule.OnRecvPacket", "k.crossChainKeeper.IBCCoinToEvm", "k.evmKeeper.CallEVM"] := by
+  decide
+
+/-- **every** store branch, `recover()`, native action, error→acknowledgement conversion, swallowed error and discarded
+result in `x/` and `app/` (regenerated inventory) is classified: modelled by a boundary program, a read with a
+fallback, propagating, never committed, outside block processing, or C09's subject.  A new site breaks this proof. -/
+theorem inventory_classified : ∀ s ∈ toleratedSites, (classify s).isSome = true := by
+  decide
+
+/-- the classified sites and the programs agree: as many `CacheContext()` / native-action sites in the inventory as
+branches opened by the programs that cover them, one `recover()`, three error acknowledgements; the composed
+transaction program opens exactly the native action and the handler's branch -/
+theorem inventory_matches_programs :
+    (sitesOf "cache" "attestationProg").length = (openIds attestationProg).length ∧
+    (sitesOf "cache" "executeClaimProg").length = (openIds executeClaimProg).length ∧
+    (sitesOf "nativeAction" "executeClaimPrecompileProg").length = (openIds executeClaimPrecompileProg).length ∧
+    (openIds executeClaimTxProg).length = (openIds executeClaimPrecompileProg).length + (openIds executeClaimProg).length ∧
+    (sitesOf "cache" "govProg").length = (openIds govInactiveProg).length + (openIds govProg).length ∧
+    (sitesOf "recover" "govProg").length = recovers govProg ∧
+    (sitesOf "errorAck" "recvPacketProg").length = failRets "channeltypes.NewErrorAcknowledgement" recvPacketProg := by
+  decide
+
+end Round3
+
 /-! ## non-vacuity -/
 
 section ProgExamples
@@ -538,6 +679,26 @@ example : 2 ∈ (run (failAt envOk "im.IBCModule.OnRecvPacket" 0) recvPacketProg
 example : (run (vmErr envOk "k.evmKeeper.CallEVM" .invalidOpcode) recvPacketProg).2.outer = ibcDesignated := by decide
 example : (run (failAt envOk "k.AttestationHandler" 0) attestationProg).2.failed = [1] := by decide
 end ProgExamples
+
+
+section Round3Examples
+open FxVerif.Model.C18P FxVerif.Proofs.C18P FxVerif.Proofs.C18T FxVerif.Model.C18Inv
+-- the whole transaction: success commits everything through both branches; a failing call leaves the designated outcome;
+-- a failing call whose refund fails leaves nothing
+example : (run envTx executeClaimTxProg).2.outer = bciSuccess envTx := by decide
+example : (run (vmErr envTx "k.evmKeeper.CallEVM" .outOfGas) executeClaimTxProg).2.outer = bciDesignated envTx := by decide
+example : (run (failAt (vmErr envTx "k.evmKeeper.CallEVM" .revert) "k.AddOutgoingBridgeCall" 0) executeClaimTxProg).2.outer = [] := by decide
+example : (run (failAt (failAt envTx "k.BaseCoinToEvm" 1) "k.bankKeeper.SendCoins" 0) executeClaimTxProg).1 = .ret false := by decide
+example : (run (failAt envTx "k.BridgeTokenToBaseCoin" 2) executeClaimTxProg).2.outer = [] := by decide
+-- inactive proposals: the hook of the middle one fails
+example : ((run (failAt envOk "keeper.Hooks().AfterProposalFailedMinDeposit" 1) govInactiveProg).2.outer.filter
+    (fun t => t.name == "keeper.Hooks().AfterProposalFailedMinDeposit")).map (·.iter) = [0, 2] := by decide
+-- the stripped programs
+example : (run (failAt envOk "k.AttestationHandler" 0) (strip 1 attestationProg)).2.outer = attDesignated 0 := by decide
+example : (run (vmErr envOk "k.evmKeeper.CallEVM" .invalidOpcode) (strip 1 executeClaimProg)).2.outer = bciDesignated envOk := by decide
+example : (run (failAt envOk "k.crossChainKeeper.IBCCoinToEvm" 0) (strip 2 recvPacketProg)).2.outer = ibcDesignated := by decide
+example : toleratedSites.length > 30 := by decide
+end Round3Examples
 
 example : (SubStep.mk [fun (n : Nat) => n + 1, fun n => n * 2] (some 1)).ok = false := rfl
 example : (SubStep.mk [fun (n : Nat) => n + 1, fun n => n * 2] (some 1)).after 5 = 6 := rfl
